@@ -1071,7 +1071,12 @@ int ov_halfrate(OggVorbis_File *vf,int flag){
 
   /* restore the position only now that the flags are final; the
      decode machine has to be rebuilt with the setting it will run with */
-  if(pos>=0)ov_pcm_seek(vf,pos);
+  if(pos>=0){
+    /* half-rate positions advance in twos, so at the end of an
+       odd-length stream the position is one past the total */
+    if(vf->seekable && pos>ov_pcm_total(vf,-1))pos=ov_pcm_total(vf,-1);
+    ov_pcm_seek(vf,pos);
+  }
   return ret;
 }
 
